@@ -357,3 +357,39 @@ pub fn big(ctx: &Ctx) -> Stats {
     st.set_extra("coverage_run_s", Json::Num(t0.elapsed().as_secs_f64()));
     st
 }
+
+/// thousands of short records of uneven length: row order of the vectors file under 2..16 threads
+pub fn manyrecs(ctx: &Ctx) -> Stats {
+    let n = ctx.n(4, 40);
+    par_cases(ctx, n, |idx, st| {
+        let mut rng = Rng::keyed(ctx.seed, "c08.manyrecs", idx);
+        let nrec = rng.usize(1100, 7000);
+        let recs = super::c05::many_records(&mut rng, nrec);
+        let cfg = CovCfg {
+            k: rng.usize(2, 11),
+            bin_size: rng.usize(1, 6),
+            bin_count: rng.usize(2, 10),
+            norm: rng.chance(1, 2),
+            threads: rng.usize(2, 16),
+            mem_gb: *rng.pick(&[0.5f64, 1.0, 6.0]),
+            delim: " ".into(),
+            alt: false,
+        };
+        let sc = Scratch::new(ctx, "c08m");
+        let inp = sc.write("in.fa", &ser::to_fasta(&recs, &SerOpts::plain()));
+        st.case(true, mix(idx) ^ hash_bytes(&recs[0].seq) ^ mix(nrec as u64));
+        st.class(if cfg.mem_gb < 1.0 { "flush-per-record" } else { "flush-once" });
+        let case = || Json::obj().set("cfg", cfg.json()).set("n_records", Json::u(recs.len())).set("records", super::oligo::recs_json(&recs));
+        match run_cov(&inp, None, &sc.subdir("o"), &cfg) {
+            Ok(d) => {
+                if let Err((sig, msg)) = check_vectors(&d, &recs, &recs, &cfg) {
+                    st.violate(&format!("{}:manyrecs", sig), msg, case());
+                }
+            }
+            Err((sig, msg)) => st.violate(&sig, msg, case()),
+        }
+        if idx % 5 == 0 {
+            st.sample(Json::obj().set("cfg", cfg.json()).set("n_records", Json::u(recs.len())));
+        }
+    })
+}
